@@ -2,15 +2,16 @@ CONSTANTS
   Accounts = {1, 2, 3}
   Subs = {1, 2}
   Amounts = {1, 2}
-  Funds <- FundsBig
-  NativeMetas = {0, 1}
+  Funds <- FundsSmall
+  NativeMetas = {0}
   SpecialIds = {1, 2, 3, 4, 5, 6, 7, 8}
-  Bindings <- AllBindings
-  MaxOps = 13
-  MaxMinted = 6
-  EmitAt = 12
+  Bindings <- HostileBindings
+  MaxOps = 2
+  MaxMinted = 3
+  EmitAt = 0
   ProbeDepth = 0
 INIT GInit
-NEXT GNextS
+NEXT GNextC
+VIEW GView
 CONSTRAINT GConstr
 CHECK_DEADLOCK FALSE
